@@ -259,6 +259,11 @@ func (w *World) GenBurns(n int) []FctTx {
 
 // GenTimelineScenario: a chain that walks through every activation in mainnet's order.
 func GenTimelineScenario(t *rapid.T, cfg GenCfg) *Scenario {
+	return GenTimelineScenarioWith(t, cfg, nil)
+}
+
+// GenTimelineScenarioWith lets the caller amend every block before it is committed.
+func GenTimelineScenarioWith(t *rapid.T, cfg GenCfg, amend func(w *World, b *Block)) *Scenario {
 	k := rapid.IntRange(5, 8).Draw(t, "startK")
 	start := uint32(144*k + rapid.IntRange(60, 130).Draw(t, "startOff"))
 	era := TimelineEra(t, start, 4)
@@ -285,6 +290,9 @@ func GenTimelineScenario(t *rapid.T, cfg GenCfg) *Scenario {
 			if Open("C08/snapshot-norates") && h%144 == 0 && len(b.OPR) < 25 {
 				b.OPR = w.OPRSet(OPRSetOpts{N: 26, Miners: w.Actors[:26]})
 			}
+		}
+		if amend != nil {
+			amend(w, b)
 		}
 		w.Commit(b)
 	}
